@@ -498,8 +498,8 @@ def is_variant(v, enums, en, var):
 
 class Event:
     """output event recorded by the fmt abstraction"""
-    def __init__(s, guard, kind, template, args):
-        s.guard, s.kind, s.template, s.args = guard, kind, template, args
+    def __init__(s, guard, kind, template, args, ok=None):
+        s.guard, s.kind, s.template, s.args, s.ok = guard, kind, template, args, ok
 
 
 class Exec:
@@ -548,6 +548,11 @@ class Exec:
             return ord(m.group(1))
         if txt.startswith('b"') or txt.startswith('"'):
             return {'$bytes': txt}
+        mv = re.match(r'^([\w:<>, ()\[\];&\']+?)::(\w+)\((.*)\)$', s.strip_generics(txt))
+        if mv:
+            en = mv.group(1).split('::')[-1]
+            if en in s.enums and mv.group(2) in s.enums[en]:
+                return {'$d': s.enums[en][mv.group(2)], '$v': {mv.group(2): [{'$opaque': mv.group(3)}]}}
         if '::' in txt:
             en, var = txt.rsplit('::', 1)
             en = re.sub(r'::<.*>$', '', en).split('::')[-1]
@@ -719,11 +724,33 @@ class Exec:
 
     def operand(s, env, t, fn):
         t = t.strip()
+        if t.startswith('no_retag '):
+            t = t[9:].strip()
         if t.startswith('const '):
             return s.const(t[6:], fn)
         if t.startswith(('copy ', 'move ')):
             return s.read(env, s.parse_place(t[5:]))
         raise Unsupported('operand ' + t)
+
+    @staticmethod
+    def split_call(t):
+        """'path::to::<A as B<()>>::f(args)' -> (callee, argument text): the argument list is the LAST balanced parenthesis group"""
+        assert t.endswith(')'), t
+        depth = 0
+        q = False
+        for i in range(len(t) - 1, -1, -1):
+            ch = t[i]
+            if ch == '"' and (i == 0 or t[i - 1] != '\\'):
+                q = not q
+            if q:
+                continue
+            if ch == ')':
+                depth += 1
+            elif ch == '(':
+                depth -= 1
+                if depth == 0:
+                    return t[:i], t[i + 1:-1]
+        raise Unsupported('call syntax ' + t)
 
     @staticmethod
     def split_args(t):
@@ -803,7 +830,7 @@ class Exec:
 
     def rvalue(s, env, rv, fn, g, dest_ty):
         rv = rv.strip()
-        if not rv.startswith(('copy ', 'move ', 'const ', '&')):
+        if not rv.startswith(('copy ', 'move ', 'const ', '&', 'no_retag ')):
             rv = s.strip_generics(rv)
         m = re.match(r'^(Add|Sub|Mul)WithOverflow\((.*)\)$', rv)
         if m:
@@ -907,7 +934,7 @@ class Exec:
             return [s.operand(env, x, fn) for x in s.split_args(rv[1:-1])]
         if rv.startswith('('):
             return [s.operand(env, x, fn) for x in s.split_args(rv[1:-1])]
-        if rv.startswith(('copy ', 'move ', 'const ')):
+        if rv.startswith(('copy ', 'move ', 'const ', 'no_retag ')):
             return s.operand(env, rv, fn)
         m = re.match(r'^([\w:<>, ()\[\];&\']+?) \{ (.*) \}$', rv)
         if m:
@@ -1073,7 +1100,7 @@ class Exec:
         for (og, oc, od, ok) in obl:
             C.obl.append((AND(g, og), oc, od, ok))
         for ev in evs:
-            s.events.append(Event(AND(g, ev.guard), ev.kind, ev.template, ev.args))
+            s.events.append(Event(AND(g, ev.guard), ev.kind, ev.template, ev.args, ev.ok))
         return r
 
     def exec_body(s, f, args):
@@ -1200,11 +1227,12 @@ class Exec:
                     C.obl.append((guard, NOT(c), f'{m.group(3)} in {f.name} {bb}', 'panic'))
                     goto(m.group(4), c)
                     break
-                m = re.match(r'^(.+?) = (.+?)\((.*)\) -> \[return: (bb\d+), unwind.*\];?$', st)
+                m = re.match(r'^(.+?) = (.+\)) -> \[return: (bb\d+), unwind.*\];?$', st)
                 if m and not re.match(r'^(Add|Sub|Mul)WithOverflow', m.group(2)):
-                    r = s.do_call(env, f, guard, m.group(2), m.group(3))
+                    callee, argtxt = s.split_call(m.group(2))
+                    r = s.do_call(env, f, guard, callee, argtxt)
                     s.write(env, s.parse_place(m.group(1)), r)
-                    goto(m.group(4), True)
+                    goto(m.group(3), True)
                     break
                 m = re.match(r'^(.+?) = (.+?)\((.*)\) -> unwind.*$', st)
                 if m:
@@ -1270,11 +1298,11 @@ class Exec:
             if not (isinstance(fa, dict) and '$fmtargs' in fa):
                 raise Unsupported('write_fmt with untracked Arguments')
             okv = B('fmt_ok')
-            s.events.append(Event(guard, 'write_fmt', fa['$fmtargs'][0], fa['$fmtargs'][1]))
+            s.events.append(Event(guard, 'write_fmt', fa['$fmtargs'][0], fa['$fmtargs'][1], okv))
             return {'$d': ITE(okv, 0, 1, 'Int'), '$v': {'Ok': [{}], 'Err': [{}]}}
         if nmc.endswith('Formatter::write_str') or re.search(r'Formatter(<[^>]*>)?::write_str$', name):
             okv = B('fmt_ok')
-            s.events.append(Event(guard, 'write_str', args[1], []))
+            s.events.append(Event(guard, 'write_str', args[1], [], okv))
             return {'$d': ITE(okv, 0, 1, 'Int'), '$v': {'Ok': [{}], 'Err': [{}]}}
         if re.search(r'as (core|std)::ops::Try>::branch$', name):
             v = args[0]
